@@ -80,6 +80,19 @@ theorem rpcAsStated_updater (resW R reqMask : Option (List Path)) :
     (fieldUpdater resW none false reqMask R).writable = resW.map (fun w => union w []) := by
   rw [fieldUpdater_eq]; cases resW <;> simp
 
+/-- A mask without a path through `k` still has none after `WithMoreUpdatePaths(l)` with another
+top-level field `l`. -/
+theorem noHead_append_single {k l : Name} {M : List Path} (h : NoHead k M) (hl : l ≠ k) :
+    NoHead k (M ++ [[l]]) := by
+  unfold NoHead at *
+  apply List.eq_nil_iff_forall_not_mem.mpr
+  intro t ht
+  have hm := mem_tails.mp ht
+  rcases List.mem_append.mp hm with h1 | h1
+  · have : t ∈ tails k M := mem_tails.mpr h1
+    rw [h] at this; cases this
+  · simp at h1; exact hl h1.1.symm
+
 /-! ## The driver's interceptor family -/
 
 /-- An integer token (`i<decimal>`; an unpopulated field is 0). -/
